@@ -101,7 +101,7 @@ def tagged_counter(ctx):
                 cnt = ("a", ("i", it, ("c", 1)), "value")
                 co, kk = to_lin(h.rhs)
                 inc = [a for a in co if a != cnt]
-                ok = h.lhs == cnt and co.get(cnt) == 1 and len(inc) == 1 and kk == 0
+                ok = h.lhs == cnt and co.get(cnt) == 1 and len(inc) == 1 and co.get(inc[0]) == 1 and kk == 0
                 if ok:
                     m = pmatch("popcount(Q_r[Q_k])", inc[0])
                     ok = m is not None and m["k"] == ("i", it, ("c", 0)) and (not sels or m["r"] == sels[0].lhs[1][1])
@@ -175,7 +175,7 @@ def histogram(ctx):
             i = h.lhs[1][2]
             co, kk = to_lin(h.rhs)
             add = [a for a in co if a != h.lhs]
-            ok = co.get(h.lhs) == 1 and len(add) == 1 and kk == 0 and pmatch("popcount(Q_v[Q_i])", add[0]) is not None and pmatch("popcount(Q_v[Q_i])", add[0])["i"] == i and pmatch("popcount(Q_v[Q_i])", add[0])["v"] == inc[0].lhs[1][1]
+            ok = co.get(h.lhs) == 1 and len(add) == 1 and co.get(add[0]) == 1 and kk == 0 and pmatch("popcount(Q_v[Q_i])", add[0]) is not None and pmatch("popcount(Q_v[Q_i])", add[0])["i"] == i and pmatch("popcount(Q_v[Q_i])", add[0])["v"] == inc[0].lhs[1][1]
         ctx.check(ok, "C31.bucket-update", ups[0].site if ups else comp.site, f"HwExpHistogram.buckets'[{cfg_name(ex)}]", found="; ".join(tstr(h.rhs) for h in ups), required="bucket[i]' = bucket[i] + popcount(increment flags of bucket i) (same i)")
         # count / min / max / sum
         cw = writers_of(ex, pat("self.count.value"), sync=True)
